@@ -187,8 +187,9 @@ def _harvest_one(dbm, t, v, pending_ne, nonneg):
     if t[0] == 'bin' and t[1] in ('Lt', 'Le', 'Eq', 'Ne'):
         a, b = t[2], t[3]
         if nonneg:
-            dbm.assume_nonneg(a)
-            dbm.assume_nonneg(b)
+            for o in (a, b):
+                if not sym.contains(o, lambda x: isinstance(x, tuple) and x and x[0] == 'bin' and x[1].split('.')[0] == 'Sub'):
+                    dbm.assume_nonneg(o)
         eff = t[1]
         if (eff == 'Eq' and not v) or (eff == 'Ne' and v):
             pending_ne.append((a, b))
@@ -210,8 +211,13 @@ def _harvest_one(dbm, t, v, pending_ne, nonneg):
         return
     if t[0] == 'discr' and t[2]:
         vn = sym.discr_variant(t, v)
+        inner = t[1]
+        if vn in ('Continue', 'Break') and inner[0] == 'try':
+            # `slice.get(i)?` on an Option: Continue <=> Some
+            inner = inner[1]
+            vn = 'Some' if vn == 'Continue' else 'None'
         if vn in ('Some', 'None'):
-            g = _get_call(t[1])
+            g = _get_call(inner)
             if g:
                 sl, idx = g
                 ln = sym.mk_len(sl)
